@@ -28,7 +28,8 @@ CHECKS = {
             "runtime monitoring: bounded-exhaustive and random operation histories judged step by step by a sequential reference model",
             "All histories up to length 3 (quick) / 4 (thorough) over {write x3 shapes, remove} x 2 keys, plus seeded long "
             "histories over 8 keys with foreign records and mixed sync/async modes; after every step every key's lookup and "
-            "read is compared with the model.",
+            "read is compared with the model. Also twin caches: two directories used alternately by the same processes, one "
+            "model each.",
             "Sequential use only (concurrency is C07). Model written from the property statement.",
             "DESIGN.md §5 C05"),
     "C06": ("fault_enumeration",
@@ -96,7 +97,9 @@ CHECKS = {
             "runtime monitoring under a ptrace supervisor: SIGKILL at every visible system call of every write scenario and torn write(2) lengths; content-area digest walk after each kill",
             "For each write scenario a traced baseline lists the file-system calls; every one is used as a kill point and every "
             "write(2) is torn (all lengths <= 256 bytes, boundary lengths above); after each kill every file under content-v2 is "
-            "re-hashed against its path and a fresh process cross-checks exists/read_hash.",
+            "re-hashed against its path and a fresh process cross-checks exists/read_hash. Also: 2-3 writers of ONE process "
+            "advanced step by step in random merges, and async writers used after a cancelled write; the content area is "
+            "re-hashed after every step.",
             "Process kill only (no power-loss model). Async modes: kill points index arrival order, each repeated.",
             "DESIGN.md §5 C03"),
     "C04": ("fault_enumeration",
@@ -111,7 +114,8 @@ CHECKS = {
             "Pairs and triples of conflicting operations run as separate processes whose file-system calls are interleaved by the "
             "supervisor in every order (warm caches, sync) or in seeded random orders (cold caches, async runtimes); every run must "
             "match some serial order in results and final state and leave structurally clean buckets. A free-running stress with "
-            "unique values is checked per key/address for linearizability and record conservation.",
+            "unique values is checked per key/address for linearizability and record conservation. Overlapping writer handles "
+            "of one process (random merges of open/chunk/commit|drop steps) are judged against the order of their commits.",
             "System-call granularity; clear/remove_fully excluded by the property; TSan only in the thorough tier.",
             "DESIGN.md §5 C07"),
     "C12": ("exploration",
